@@ -17,7 +17,7 @@ from harness.common.ctx import Timeout, time_limit
 from harness.props import c13 as base
 
 EXE = "c14_model"
-PROPS = ["Holpy.C14.Props", "Holpy.C14.Props2", "Holpy.C14.Props3"]
+PROPS = ["Holpy.C14.Props", "Holpy.C14.Props2", "Holpy.C14.Props3", "Holpy.C14.Props4"]
 
 
 def ids(pos):
@@ -172,8 +172,81 @@ class Examiner:
             raise
         except Exception as e:  # noqa
             ctx.count("search:filter-stream-error:%s" % type(e).__name__)
+        try:
+            self.exists_stream(state, gp, fs)
+        except Timeout:
+            raise
+        except Exception as e:  # noqa
+            ctx.count("exists-stream-error:%s" % type(e).__name__)
         for r in res:
             self.test_suggestion(goal, trail, state, gp, r)
+
+    # ---------------------------------------------------------------- exists_elim.apply against existsElimM
+    EXISTS_MSGS = ("exists_elim", "exists_elim: id is not a gap", "exists_elim: cannot find intros at the end")
+
+    def exists_record(self, state, target, step, label):
+        """`exists_elim.apply` as the real code did it (target = the state afterwards, None = it failed with
+        one of its own assertions) against the model's existsElimM on the state before."""
+        from logic import logic
+        rec = self.recorder
+        if rec is None or sum(1 for r in rec.method_records if r[0].startswith("method:exists_elim")) >= 600:
+            return
+        gid = [int(x) for x in str(step["goal_id"]).split(".")]
+        fact = [int(x) for x in step["fact_ids"][0].split(".")]
+        prop = state.get_proof_item(tuple(fact)).th.prop
+        names = [n.strip() for n in step["names"].split(",")]
+        is_ex = bool(prop.is_exists())
+        vars_, body = logic.strip_exists(prop, names) if is_ex else ([], prop)
+        nv = len(vars_)
+        if target is not None:
+            at = lambda k: target.get_proof_item(tuple(gid[:-1] + [gid[-1] + k]))  # noqa
+            vths = [rec.th(at(k).th) for k in range(nv)]
+            ath = rec.th(at(nv).th)
+            expect = ["ok", rec.state(target)]
+        else:
+            vths, ath, expect = ["N"] * nv, "N", "error"
+        op = ["existselim", rec.state(state), gid, fact, is_ex, vths, ath, rec.tcode(body),
+              rec.rcode("assume"), rec.rcode("variable"), rec.rcode("intros")]
+        rec.method_records.append((label, op, expect))
+
+    def exists_stream(self, state, gp, fs):
+        """Adversarial calls of exists_elim (never through search): any single selected fact - an
+        existential or not -, on the gap and on a line that is not a gap, with one or two names."""
+        from kernel.proof import ProofStateException
+        from server import method
+        rec = self.recorder
+        if rec is None or len(fs) != 1:
+            return
+        done = [r[2] == "error" for r in rec.method_records if r[0] == "method:exists_elim:direct"]
+        is_ex = bool(state.get_proof_item(fs[0]).th.prop.is_exists())
+        if (not is_ex and sum(done) >= 100) or len(done) >= 500:
+            return                               # refusals for a fact of another shape: a sample is enough
+        lines = [gp]
+        other = [pos for pos, it in base.walk(state) if it.rule not in ("sorry", "subproof") and it.th is not None
+                 and base.visible(fs[0], pos)]
+        if other:
+            lines.append(other[len(rec.method_records) % len(other)])
+        for line in lines:
+            for names in ("zq8", "zq8, zq9"):
+                step = {"method_name": "exists_elim", "goal_id": ids(line), "fact_ids": [ids(fs[0])], "names": names}
+                tgt = copy.copy(state)
+                try:
+                    with time_limit(base.STEP_LIMIT):
+                        method.apply_method(tgt, copy.deepcopy(step))
+                except Timeout:
+                    continue
+                except AssertionError as e:
+                    if str(e) not in self.EXISTS_MSGS:
+                        self.ctx.count("exists-stream:other-refusal")
+                        continue                  # name clash / refusal by the re-check: not modelled
+                    tgt = None
+                except ProofStateException:
+                    tgt = None
+                except Exception as e:  # noqa
+                    self.ctx.count("exists-stream:other-failure:%s" % type(e).__name__)
+                    continue
+                self.ctx.count("exists-stream:%s" % ("ok" if tgt is not None else "refused"))
+                self.exists_record(state, tgt, step, "method:exists_elim:direct")
 
     # ---------------------------------------------------------------- search-side model (Holpy/C14/Model.lean, `Sel`)
     FILTER_METHODS = ["introduction", "exists_elim", "forall_elim", "inst_exists_goal"]
@@ -325,6 +398,11 @@ class Examiner:
             return
         ctx.count("apply:%s:ok" % name)
         self.advertised_vs_export(sugg, nrec)
+        if name == "exists_elim":
+            try:
+                self.exists_record(state, target, step, "method:exists_elim")
+            except Exception as e:  # noqa
+                ctx.count("exists-record-error:%s" % type(e).__name__)
         if sugg.get("_goal") or sugg.get("_fact"):
             ctx.sample({"goal": goal.ident(), "steps_so_far": len(trail), "suggestion": jsonable(sugg), "outcome": "ok"})
         if any(k.startswith("param_") and v != "" and k not in sugg for k, v in step.items()):
@@ -520,6 +598,29 @@ DIRECTED = [
      "steps": [{"method_name": "apply_backward_step", "goal_id": "1", "fact_ids": [], "theorem": "conjI"},
                {"method_name": "introduction", "goal_id": "2", "fact_ids": [], "names": ""}],
      "goal_id": "1", "facts": [["0"], []]},
+    # exists_elim (model existsElimM): nested quantifiers with fewer / as many / more names than binders, a second
+    # exists_elim in the same scope, a goal in front of a subproof line (its sequent is re-stated in place), a
+    # derived line between the goal and the closing intros line
+    {"name": "exists-elim-nested-binders", "theory": "logic", "vars": {"R": "'a => 'a => bool", "C": "bool"},
+     "prop": "(?x. ?y. R x y) --> C", "steps": [], "goal_id": "1", "facts": [["0"]]},
+    {"name": "exists-elim-second-in-scope", "theory": "logic", "vars": {"P": "'a => bool", "Q": "'a => bool", "C": "bool"},
+     "prop": "(?x. P x) --> (?x. Q x) --> C",
+     "steps": [{"method_name": "exists_elim", "goal_id": "2", "fact_ids": ["0"], "names": "u"}],
+     "goal_id": "4", "facts": [["1"], ["0"]]},
+    {"name": "exists-elim-in-front-of-subproof-line", "theory": "logic", "vars": {"P": "'a => bool", "A": "bool", "C": "bool"},
+     "prop": "(?x. P x) --> C & (A --> A | C)",
+     "steps": [{"method_name": "apply_backward_step", "goal_id": "1", "fact_ids": [], "theorem": "conjI"},
+               {"method_name": "introduction", "goal_id": "2", "fact_ids": [], "names": ""}],
+     "goal_id": "1", "facts": [["0"]]},
+    {"name": "exists-elim-earlier-gap-of-two", "theory": "logic", "vars": {"P": "'a => bool", "B": "bool", "C": "bool"},
+     "prop": "(?x. P x) --> B & C",
+     "steps": [{"method_name": "apply_backward_step", "goal_id": "1", "fact_ids": [], "theorem": "conjI"}],
+     "goal_id": "1", "facts": [["0"]]},
+    {"name": "exists-elim-inside-subproof", "theory": "logic", "vars": {"P": "'a => bool", "B": "bool", "C": "bool"},
+     "prop": "B & ((?x. P x) --> C)",
+     "steps": [{"method_name": "apply_backward_step", "goal_id": "0", "fact_ids": [], "theorem": "conjI"},
+               {"method_name": "introduction", "goal_id": "1", "fact_ids": [], "names": ""}],
+     "goal_id": "1.1", "facts": [["1.0"]]},
     {"name": "conditional-rewrite-with-and-without-its-condition", "theory": "logic", "vars": {"P": "bool", "a": "'a", "b": "'a"},
      "prop": "P --> (if P then a else b) = a", "steps": [], "goal_id": "1", "facts": [[], ["0"], []]},
 ]
